@@ -1149,4 +1149,40 @@ theorem frame_incl_range_exact_inner (w : Wave) (hdt : 0 < w.dt) (k : Nat)
   rw [frameRanges_incl_multi w k hdt hk P L δ hmulti] at hri
   exact incl_range_exact_inner w hdt k hk (L * P) (Nat.mul_pos hL hP) ri hri f hf hper
 
+/-! ### derived kymographs (strengthening round H)
+
+  The model of a kymograph that went through slices / crops / flips / copies (`DK`) computes its line
+  ranges with `Wave.lineRangesRows` on the rows its timestamp factory shows.  For the untouched object
+  (all `P` rows) these ARE the ranges the theorems above speak about, so every range theorem transfers
+  to the first object of a sequence and - because a time slice re-reads the info wave between two line
+  starts - to every sliced object; crops and flips are tied by the correspondence check and judged by
+  the oracle only. -/
+
+theorem lineRangesRows_full (w : Wave) (P : Nat) (δ : Int) :
+    w.lineRangesRows P (List.range P) δ false = w.lineRangesExcl P δ := by
+  unfold Wave.lineRangesRows Wave.lineRangesExcl
+  cases w.pixReduce listMin <;> cases w.pixReduce listMax <;> simp [kymoImage, pickRows_range_transposeN]
+
+theorem lineRangesRows_full_incl (w : Wave) (P : Nat) (δ : Int) :
+    (w.lineRangesRows P (List.range P) δ true).map some = w.lineRangesInclFixed P δ := by
+  unfold Wave.lineRangesInclFixed Wave.lineRangesIncl Wave.lineRangesRows Wave.lineRangesExcl Wave.pixReduce
+  cases w.pixelRows with
+  | none => simp
+  | some rows =>
+    simp only [Option.map_some, kymoImage, pickRows_range_transposeN]
+    cases h : (transposeN P (padRows P (rows.map listMin))).headD [] with
+    | nil => simp
+    | cons a t => cases t <;> simp
+
+/-- the timestamps of the untouched object of a sequence are `Kymo.timestamps` of the wave; copies
+    (and recalibration) change nothing -/
+theorem dk_untouched_timestamps (w : Wave) (cnt : List Int) (P : Nat) (d : DK)
+    (h : DK.init w cnt P 0 = .ok d) : d.timestamps P = w.kymoTimestamps P := by
+  simp only [DK.init, if_true] at h
+  cases h
+  simp only [DK.timestamps, Wave.kymoTimestamps]
+  cases w.pixMean with
+  | none => rfl
+  | some pix => simp [kymoImage, pickRows_range_transposeN]
+
 end Verif.C03
